@@ -17,7 +17,7 @@ from mc.common import reset_frame_state, quiet
 ID = 'C09'
 LEVEL = 'exploration'
 PRELOAD = ['frame.geometry.geometry', 'frame.netlist.netlist', 'frame.die.die', 'frame.allocation.allocation', 'ruamel.yaml', 'mc.common', 'tools.legalfloor.legalfloor']
-RULE = ("netlists: 1-3 modules from 21 shapes (soft/hard/fixed x {single rectangle, trunk+N, trunk+N+N, trunk+E+W, trunk+S(+W), two siblings on each side listed against their order, a branch centred on the trunk axis}, two of them with integer "
+RULE = ("netlists: 1-3 modules from 27 shapes (soft/hard/fixed x {single rectangle, trunk+N, trunk+N+N, trunk+E+W, trunk+S(+W), two siblings on each side listed against their order, two siblings on each of two opposite sides, a branch centred on the trunk axis, a branch larger than its trunk also listed before it}, two of them with integer "
         "YAML coordinates) placed in distinct slots of the die, max_ratio in {2,3}; configurations per model: input; each movable module translated to each free slot; "
         "soft modules grown 10%; each branch slid 0.2 along its side; and from each legal configuration every perturbation of the menu {cross each die border by 0.5, "
         "stretch a soft rectangle beyond the ratio limit, shrink a soft module's area by 36%, detach a branch by 0.25, slide a branch 0.5 past the trunk end, swap two "
@@ -54,6 +54,14 @@ SHAPES = {
     # integer coordinates (written as YAML ints): trunk [2,2,2,2] + east branch [3.5->4,2,...]: all ints
     'hardE_int': ('hard', [('T', 2, 2, 2, 2), ('E', 4, 2, 2, 2)]),
     'fixedE_int': ('fixed', [('T', 2, 2, 2, 2), ('E', 4, 2, 2, 2)]),
+    # two siblings on each of two opposite sides (the equations of one side must not replace those of another)
+    'softNNSS': ('soft', [T0, BR['N'], BR['N2'], S1, S2]), 'softEEWW': ('soft', [T0, E1, E2, W1, W2]),
+    'hardNNSS': ('hard', [T0, BR['N'], BR['N2'], S1, S2]),
+    # a branch with more area than its trunk (short wide trunk, long south branch); and a hard module whose larger east
+    # branch is LISTED before its trunk in the document ('_rev': the document lists the rectangles in reverse order)
+    'softSbig': ('soft', [('T', 2.0, 2.7, 2.0, 1.1), ('S', 2.0, 1.15, 1.4, 2.0)]),
+    'hardEbig_rev': ('hard', [('T', 1.5, 2.0, 1.0, 2.0), ('E', 2.9, 2.0, 1.8, 1.2)]),
+    'softWbig_rev': ('soft', [('T', 3.0, 2.0, 1.0, 2.0), ('W', 1.6, 2.0, 1.8, 1.2)]),
 }
 Q9 = ['soft1', 'softN', 'softNN', 'softEW', 'hard1', 'hardN', 'hardE_int', 'fixed1', 'fixedN', 'softWW', 'hardNE']
 Q5 = ['softN', 'hardE', 'fixed1', 'softS', 'hardNN']
@@ -87,7 +95,8 @@ def build_model(case):
     layout = []
     for i, (shape, si) in enumerate(case['mods']):
         kind, rects = place(shape, slots[si])
-        node = {'rectangles': [[num_as(shape, r['x']), num_as(shape, r['y']), num_as(shape, r['w']), num_as(shape, r['h'])] for r in rects]}
+        node = {'rectangles': [[num_as(shape, r['x']), num_as(shape, r['y']), num_as(shape, r['w']), num_as(shape, r['h'])]
+                               for r in (reversed(rects) if shape.endswith('_rev') else rects)]}
         if kind == 'soft':
             node['area'] = sum(r['w'] * r['h'] for r in rects)
         elif kind == 'hard':
@@ -370,15 +379,13 @@ def evaluate_system(model, cfg, index):
         for e in model.gekko.constraints.get(group, []):
             if not e.is_equation_met():
                 unmet.append((group, e.name))
+    # the per-module equations, through the module's own accessor (the one ModelWrapper.build_model feeds the solver from;
+    # every rectangle is enabled in a freshly built model, so the accessor has no side effect); 'Rid' is bookkeeping
     for mm in model.M:
-        for con in mm.constraints:
-            for (group, e) in con:
-                if not e.is_equation_met():
-                    unmet.append((group, e.name))
-        for key, lst in mm.codependent_constraints.items():
-            for (group, e) in lst:
-                if not e.is_equation_met():
-                    unmet.append((group, e.name))
+        assert all(mm.enable), 'a freshly built model has all rectangles enabled'
+        for (group, e) in mm.get_constraints(model.gekko):
+            if group != 'Rid' and not e.is_equation_met():
+                unmet.append((group, e.name))
     return unmet
 
 
